@@ -83,6 +83,9 @@ def concSent (day : Int) (m g i : Nat) : SentRec :=
 def fmtRec (r : Rec) : String :=
   strTok r.name ++ "," ++ strTok r.renamed ++ "," ++ strTok r.hash ++ "," ++ toString r.size ++ "," ++ toString r.time
 
+/-- number of line ends in the log files -/
+def linesOf (st : Store) : Nat := (st.map (fun x => (x.2.filter (· == '\n')).length)).sum
+
 def lookup (s : LState) (kind : String) (idx : Nat) (name hash a b : String) : String :=
   match kindStore s kind, parseTime? a, parseTime? b with
   | some st, some a, some b =>
@@ -138,6 +141,16 @@ def logfmtStep (s : LState) (ws : List String) : LState × String :=
          s!"ok {k * m}")
       else (s, "bad-op")
     | _, _, _ => (s, "bad-op")
+  | ["restart", kind, n1, h1, n2, h2] =>
+    -- a record, a restart of the logger (no effect on the log: it only ever appends), a second record
+    let now : Int := 43200
+    if kind == "recv" then
+      let st := logLine (logLine [] 0 (fmtReceived ⟨tokStr n1, [], tokStr h1, 1, now⟩)) 0 (fmtReceived ⟨tokStr n2, [], tokStr h2, 1, now⟩)
+      (s, s!"{boolStr (wasReceived st (tokStr n1) (tokStr h1) (now - 3600) (now + 3600))} {boolStr (wasReceived st (tokStr n2) (tokStr h2) (now - 3600) (now + 3600))} {linesOf st}")
+    else if kind == "sent" then
+      let st := logLine (logLine [] 0 (fmtSent ⟨tokStr n1, tokStr h1, 1, now, 1⟩)) 0 (fmtSent ⟨tokStr n2, tokStr h2, 1, now, 1⟩)
+      (s, s!"{boolStr (wasSent st (tokStr n1) (tokStr h1) (now - 3600) (now + 3600))} {boolStr (wasSent st (tokStr n2) (tokStr h2) (now - 3600) (now + 3600))} {linesOf st}")
+    else (s, "bad-op")
   | ["live", kind, name, hash] =>
     let now : Int := 43200
     if kind == "recv" then
